@@ -93,7 +93,7 @@ def run(ctx):
     ctx.suites_run.append(SUITE)
     rng = ctx.rng
     ctx.rule("variable lists: every kind sequence of length 1..2 over the seven kinds (exhaustive), random sequences of length 3..4, "
-             "parameters sampled (sizes 1..3 incl. size-1 multi-variables, lone permutations); positions of matching dimension built from per-variable "
+             "parameters sampled (sizes 1..3 incl. size-1 multi-variables, lone permutations); tasks derived from an already used task by model_copy(update=variables) / copy-then-assign; positions of matching dimension built from per-variable "
              "candidates (in/out of range, boundaries, ±inf); ops dim/get_bounds/correct_solution/initial_solution/transform_solution; "
              "non-trivial = every case (distinct by declaration list, op and position)")
     seqs = [list(s) for L in (1, 2) for s in itertools.product(gen.KINDS, repeat=L)]
@@ -199,6 +199,46 @@ def run(ctx):
                                 exp = [labels[c] for c in sl[0]]
                             if repr(d[f"v{i}"]) != repr(exp):
                                 ctx.fail("C14/Task.transform_solution/not-decoded-slice", f"v{i}: {d[f'v{i}']!r} != {exp!r}", SUITE, meta)
+            # ---- a task derived from an already used one (same kinds and sizes, other parameters): its description must be its own
+            if rep == 1 and not has_perm:
+                specs2 = []
+                for sp in specs:
+                    s2 = gen.rand_spec(rng, sp["k"])
+                    # keep the sizes so that space_dimension (computed at construction) stays right
+                    if sp["k"] in ("contMulti", "multiObj"):
+                        bs = [gen.rand_bounds(rng) for _ in sp["lbs"]]
+                        s2 = {"k": sp["k"], "lbs": [b[0] for b in bs], "ubs": [b[1] for b in bs]}
+                    elif sp["k"] == "discMulti":
+                        s2 = {"k": "discMulti", "ns": [rng.randrange(1, 6) for _ in sp["ns"]]}
+                    elif sp["k"] == "binary":
+                        s2 = dict(sp)
+                    specs2.append(s2)
+                new_vars = [gen.make_variable(sp, f"v{i}") for i, sp in enumerate(specs2)]
+                for how in ("model_copy(update)", "copy-then-assign"):
+                    if how == "model_copy(update)":
+                        okd, t2 = call(lambda: task.model_copy(update={"variables": new_vars}))
+                    else:
+                        def mk():
+                            t = task.model_copy()
+                            t.variables = new_vars
+                            return t
+                        okd, t2 = call(mk)
+                    if not okd:
+                        continue
+                    flats2 = [f for sp in specs2 for f in gen.spec_flat(sp)]
+                    xs = [rand_raw(rng, f) for f in flats2]
+                    metad = {"specs": specs2, "derived_from": specs, "how": how, "x": repr(xs)}
+                    okc, y = call(t2.correct_solution, xs)
+                    C.add({"op": "task.correct", "task": [gen.spec_json(sp) for sp in specs2], "x": [raw_json(x) for x in xs]}, [rcoord(c) for c in y] if okc else rerr(y), {**metad, "op": "correct-derived"})
+                    if okc:
+                        memC.add({"op": "task.mem", "task": [gen.spec_json(sp) for sp in specs2], "c": [coord_json(c) for c in y]}, None,
+                                 {**metad, "op": "mem-derived", "y": repr(y), "sig": "C14/Task.correct_solution/derived-task-corrected-with-stale-variables"})
+                    okb2, b2 = call(t2.get_bounds)
+                    if okb2:
+                        elb = [x for sp in specs2 for x in own_bounds(sp)[0]]
+                        eub = [x for sp in specs2 for x in own_bounds(sp)[1]]
+                        if render_bounds((elb, eub)) != render_bounds(b2):
+                            ctx.fail("C14/Task.get_bounds/derived-task-reports-stale-bounds", f"{how}: got {render_bounds(b2)[0][:3]}… expected {render_bounds((elb, eub))[0][:3]}…", SUITE, metad)
             # ---- initial_solution (random): one coordinate per dimension, member
             oki, y = call(task.initial_solution)
             if not oki:
